@@ -379,6 +379,7 @@ Lemma sm_md : forall sn msgs,
 Proof.
   intros sn msgs. unfold Dest.state_machine.
   rewrite (b_ok _ _ _ _ _ (check_md _ _ _ _ _ (dst_init cd) eq_refl eq_refl)).
+  unfold catch_abandoned; apply catch_ok.
   unfold dst_init at 1. mrun. fold (dst_init cd).
   rewrite (b_ok _ _ _ _ _ (idle_md sn msgs)).
   unfold dstate at 1, hS. mrun. fold hS.
@@ -392,6 +393,7 @@ Lemma sm_fd : forall off data fs lg old, lookup fs [x] = Some (File old) ->
 Proof.
   intros off data fs lg old Hl. unfold Dest.state_machine.
   rewrite (b_ok _ _ _ _ _ (check_fd off data (dstate off fs lg) eq_refl eq_refl)).
+  unfold catch_abandoned; apply catch_ok.
   unfold dstate at 1, hS. mrun. fold hS.
   apply nif_fd. exact Hl.
 Qed.
@@ -433,6 +435,7 @@ Lemma sm_eof : forall cks fl fs lg data,
 Proof.
   intros cks fl fs lg data Hl Hck. unfold Dest.state_machine.
   rewrite (b_ok _ _ _ _ _ (check_eof C_NO_ERROR cks fsz fl (dstate fsz fs lg) eq_refl eq_refl)).
+  unfold catch_abandoned; apply catch_ok.
   unfold dstate at 1, hS. mrun. fold hS.
   eapply nif_eof; eassumption.
 Qed.
